@@ -50,6 +50,7 @@ void vf_run_case(Ctx& c, uint64_t index) {
   int steps = (int)r.range(10, 120);
   for (int s = 0; s < steps && !failed; s++) {
     Op o = gen_op(r, ho, m);
+    adapt_op(o);
     if (o.k == OpK::DocShrink && r.coin()) o.k = OpK::Probe;
     log.push_back(op_str(o));
     Outcome exp = model_apply(m, o);
